@@ -18,6 +18,9 @@ type replayFn func(detail json.RawMessage) error
 var checks = map[string]checkFn{}
 var replays = map[string]replayFn{}
 
+// subcommands lets tagged files add commands (e.g. the E3 worker).
+var subcommands = map[string]func(args []string){}
+
 func register(id string, c checkFn, r replayFn) {
 	checks[id] = c
 	if r != nil {
@@ -87,6 +90,10 @@ func main() {
 		}
 		fmt.Println("not reproduced (the case now satisfies the oracle)")
 	default:
+		if f, ok := subcommands[os.Args[1]]; ok {
+			f(os.Args[2:])
+			return
+		}
 		usage()
 	}
 }
